@@ -13,7 +13,7 @@ CONSTANTS Depth, MaxOff, Emit
 VARIABLES tree, n, last
 vars == <<tree, n, last>>
 Files == {"a", "b", "d1/a", "d2/b"}
-Dirs == {"d1", "d2"}
+Dirs == {"d1", "d2", "d1/d3"}
 Paths == Files \cup Dirs
 Payloads == {<<>>, <<1>>, <<2, 1>>}
 Ops == { [op |-> k, p |-> p] : k \in {"create_file", "delete_file", "create_directory", "truncate_file", "file_size", "file_exists", "is_directory"}, p \in Paths }
